@@ -92,6 +92,12 @@ where
         &self,
         symbol: impl Borrow<Self::Symbol>,
     ) -> Option<(Self::Probability, <Self::Probability as BitArray>::NonZero)> {
+        // Compare in `usize` *before* narrowing to `Probability`: a symbol beyond the range
+        // of `Probability` must not alias an in-support symbol.
+        match self.last_symbol.to_usize() {
+            Some(last_symbol) if *symbol.borrow() > last_symbol => return None,
+            _ => {}
+        }
         let symbol = symbol.borrow().as_();
         let left_cumulative = symbol.wrapping_mul(&self.probability_per_bin.get());
 
